@@ -36,4 +36,55 @@ def savedBy (fs : FinalSave) (frm limit : Nat) : List Batch → Option Batch →
 def run (fs : FinalSave) (frm to limit : Nat) : Option (List Nat) :=
   (plan (to + 1 - frm) limit).map (fun bs => savedBy fs frm limit bs none)
 
+/-- the batches a run saves, in order, each as its heights (the same recursion as `savedBy`) -/
+def savesOf (fs : FinalSave) (frm limit : Nat) : List Batch → Option Batch → List (List Nat)
+  | [], pending =>
+    match pending with
+    | none => []
+    | some b =>
+      let len := b.last + 1 - b.first
+      match fs with
+      | .lenLtLimit => if len < limit then [batchHeights frm b] else []
+      | .lenPos => if 0 < len then [batchHeights frm b] else []
+      | .always => [batchHeights frm b]
+  | b :: rest, pending =>
+    (match pending with | some p => [batchHeights frm p] | none => []) ++ savesOf fs frm limit rest (some b)
+
+/-- what can go wrong while a batch is saved -/
+inductive Fault where
+  | none
+  | mergeFails (h : Nat)           -- the merge step (the function `Save` returned) of block `h` fails
+  | cancelDuringMerge (h : Nat)    -- the run's context is cancelled while block `h` is merged
+deriving Repr, DecidableEq
+
+/-- the clauses of `saveImporters` (extracted from the source on every run) -/
+structure SaveCode where
+  singleReturnsMergeError : Bool   -- the one-importer branch returns the error of the merge step
+  mergesIgnoreContext : Bool       -- the merge loop runs every merge, whatever the context says
+deriving Repr, DecidableEq
+
+def fixedCode : SaveCode := { singleReturnsMergeError := true, mergesIgnoreContext := true }
+
+/-- the merges of one batch, one after the other: `none` = `saveImporters` returns an error -/
+def mergeAll (code : SaveCode) (fault : Fault) (single : Bool) : List Nat → List Nat → Bool → Option (List Nat × Bool)
+  | [], stored, cancelled => some (stored, cancelled)
+  | h :: rest, stored, cancelled =>
+    if !code.mergesIgnoreContext && cancelled then some (stored, cancelled)        -- stops merging, reports success
+    else if fault = .mergeFails h then
+      (if single && !code.singleReturnsMergeError then some (stored, cancelled) else none)
+    else mergeAll code fault single rest (stored ++ [h]) (cancelled || decide (fault = .cancelDuringMerge h))
+
+/-- the saves of a run in order; after a save during which the context was cancelled the next batch's jobs fail -/
+def saveSeq (code : SaveCode) (fault : Fault) : List (List Nat) → List Nat → Option (List Nat)
+  | [], stored => some stored
+  | hs :: rest, stored =>
+    match mergeAll code fault (hs.length == 1) hs stored false with
+    | none => none
+    | some (stored', cancelled) =>
+      if cancelled && !rest.isEmpty then none else saveSeq code fault rest stored'
+
+/-- `ImportBlocks(from, to, limit)` under a fault: `none` = no plan, `some none` = an error is returned -/
+def runF (code : SaveCode) (fault : Fault) (fs : FinalSave) (frm to limit : Nat) : Option (Option (List Nat)) :=
+  (plan (to + 1 - frm) limit).map (fun bs => saveSeq code fault (savesOf fs frm limit bs none) [])
+
 end Mitum.Import
